@@ -208,6 +208,44 @@ pub fn worker(tier: &str, chunk: usize, nchunks: usize) -> i32 {
   0
 }
 
+/// End-to-end tier (DESIGN 5.5): the real binary's own loading path (main.rs: `remap --layout-file F`, no device given, so
+/// the run ends right after loading) over the structured inputs and the shortest byte strings.  Whatever F holds, the
+/// process must end by itself with an ordinary exit status: a panic (status 101) or a signal is a crash.
+pub struct BinTier { pub invocations: u64, pub accepted: u64, pub rejected: u64, pub crashes: Vec<(String, String, Value, u64)>, pub machinery: Option<String>, pub stride: usize }
+
+pub fn binary_tier(ctx: &Ctx) -> Option<BinTier> {
+  use crate::e2e::*;
+  if !available() { return None; }
+  let thorough = ctx.tier == Tier::Thorough;
+  let mut inputs: Vec<Vec<u8>> = vec![];
+  for i in 0..byte_space(1) { inputs.push(bytes_of(i, 1)); }
+  let texts = structured_inputs(thorough);
+  let budget = if thorough { 200_000 } else { 24_000 };
+  let stride = (texts.len() + budget - 1) / budget;
+  for (i, t) in texts.iter().enumerate() { if i % stride.max(1) == 0 { inputs.push(t.as_bytes().to_vec()); } }
+  let cases: Vec<Case> = inputs.iter().map(|b| Case { layout: LayoutArg::File(b.clone()), excludes: vec![], install: false }).collect();
+  let mut t = BinTier { invocations: cases.len() as u64, accepted: 0, rejected: 0, crashes: vec![], machinery: None, stride: stride.max(1) };
+  let obs = match run_cases(&cases, ctx.threads) { Ok(o) => o, Err(e) => { if e.starts_with("unavailable") { return None; } t.machinery = Some(e); return Some(t); } };
+  for (b, o) in inputs.iter().zip(obs.iter()) {
+    match (o.status, o.signal) {
+      (Some(0), _) => t.accepted += 1,
+      (Some(1), _) => t.rejected += 1,
+      (st, sg) => {
+        let first_line = o.stderr.lines().find(|l| l.contains("panicked")).unwrap_or(o.stderr.lines().next().unwrap_or("")).to_string();
+        // "thread 'main' (12345) panicked at ..." carries the thread id: drop it so that one defect is one class
+        let first_line = match (first_line.find("' ("), first_line.find(") panicked")) { (Some(a), Some(b)) if a < b => format!("{}'{}", &first_line[..a], &first_line[b + 1..]), _ => first_line };
+        let key = format!("status {:?} signal {:?}: {}", st, sg, truncate(&first_line, 200));
+        let show: String = String::from_utf8_lossy(b).chars().take(600).collect();
+        match t.crashes.iter_mut().find(|c| c.0 == key) {
+          Some(c) => { c.3 += 1; if show.len() < c.1.len() { c.1 = show.clone(); c.2 = json!({"input_text": String::from_utf8_lossy(b), "tier": "real-binary"}); } }
+          None => t.crashes.push((key, show, json!({"input_text": String::from_utf8_lossy(b), "tier": "real-binary", "stderr": truncate(&o.stderr, 600)}), 1)),
+        }
+      }
+    }
+  }
+  Some(t)
+}
+
 pub fn run(ctx: &Ctx) -> Outcome {
   let mut o = Outcome::new("exploration");
   let nchunks = ctx.threads * 2;
@@ -244,7 +282,7 @@ pub fn run(ctx: &Ctx) -> Outcome {
   o.cov("states", states);
   o.cov("transitions", transitions);
   o.cov("exhaustive", true);
-  o.cov("rule", format!("(i) every byte string of length 0..={}; (ii) schema-shaped JSON values from a {}-atom menu at every position of the layout schema; (iii) every single structure-aware mutation (every atom, wrap, duplicate, delete, sibling copy) of every JSON node of {} seed layouts{}; (iv) every list of length 0..={} over {{LEFTSHIFT, CAPSLOCK, J, K, @s, @t}} as from / to / repeat keys / absorbing. Each input is written to a file and read by the real load_layout_from_file under catch_unwind in worker processes; distinct_nontrivial = distinct accepted layouts (by converted value, per worker), each installed with Mapper::for_layout and explored by Engine A (BFS to fixpoint, N={} keys held, its own keys + foreign keys, ill-formed events and release_all included).", if ctx.tier == Tier::Thorough { 3 } else { 2 }, atoms().len(), seeds().len(), if ctx.tier == Tier::Thorough { " and all pairs within one mapping object" } else { "" }, if ctx.tier == Tier::Thorough { 4 } else { 3 }, if ctx.tier == Tier::Thorough { 3 } else { 2 }));
+  o.cov("rule", format!("(i) every byte string of length 0..={}; (ii) schema-shaped JSON values from a {}-atom menu at every position of the layout schema; (iii) every single structure-aware mutation (every atom, wrap, duplicate, delete, sibling copy) of every JSON node of {} seed layouts{}; (iv) every list of length 0..={} over {{LEFTSHIFT, CAPSLOCK, J, K, @s, @t}} as from / to / repeat keys / absorbing. Each input is written to a file and read by the real load_layout_from_file under catch_unwind in worker processes; when `unshare -m` is available the byte strings of length <= 1 and the structured inputs (every k-th if there are more than the tier's budget, k in real_binary_structured_input_stride) are also given to the real binary (`totalmapper remap --layout-file F`, guard off, main.rs's own loading path), which must end with exit status 0 or 1, never a panic or a signal; distinct_nontrivial = distinct accepted layouts (by converted value, per worker), each installed with Mapper::for_layout and explored by Engine A (BFS to fixpoint, N={} keys held, its own keys + foreign keys, ill-formed events and release_all included). The generated layout families of the mapper properties (the whole plan of C01 except the large fixed layouts: singles, pairs, Q4, S4, O3, M2, M3, NR4, K1-K4; up to four keys held) are explored the same way with no predicate, for panics only.", if ctx.tier == Tier::Thorough { 3 } else { 2 }, atoms().len(), seeds().len(), if ctx.tier == Tier::Thorough { " and all pairs within one mapping object" } else { "" }, if ctx.tier == Tier::Thorough { 4 } else { 3 }, if ctx.tier == Tier::Thorough { 3 } else { 2 }));
   o.cov("samples", json!([{"input": "{\"mappings\":[{\"from\":[\"@s\",\"@s\",\"A\"],\"to\":\"X\"}]}"}, {"input_bytes_hex": "7b7d"}, {"input": to_text(&json!({"mappings": [{"from": "J", "to": "K", "repeat": {"Special": {"keys": "F21", "delay_ms": NUM_PLACEHOLDER, "interval_ms": 0}}}]}))}]));
   o.assumptions = vec!["resource exhaustion (alias products of astronomically many combinations) is out of scope".into(), "every byte string is covered completely only up to the length bound; longer inputs are reached through the structured generators".into()];
   for (msg, (count, first, art)) in &panics {
@@ -253,6 +291,41 @@ pub fn run(ctx: &Ctx) -> Outcome {
     o.violations.push(Violation { property: "C14".into(), clause: clause.into(), signature: None, description: format!("{} — first input: {}", msg, first), artefact: a, count: *count });
   }
   if accepted == 0 || rejected == 0 { o.machinery_error = Some("vacuity: no accepted or no rejected input".into()); }
+  // the mapper half on the generated layout families of Engine A (no predicate, panics only): layouts that absorb two
+  // keys, four keys held, every key code in every role ... - what the loader corpus above does not contain
+  {
+    let (agg, nfam) = crate::props_a::panic_sweep(ctx);
+    o.cov("generated_layouts_swept_for_panics", agg.layouts);
+    o.cov("generated_layout_families", nfam as u64);
+    o.cov("states", states + agg.states);
+    o.cov("transitions", transitions + agg.transitions);
+    if !agg.incomplete.is_empty() && agg.panics.is_empty() { o.machinery_error = Some(format!("panic sweep: state cap reached before the declared space was covered: {}", agg.incomplete[0])); }
+    let mut seen_msgs: BTreeMap<String, u64> = BTreeMap::new();
+    for (_, _, msg) in &agg.panics { *seen_msgs.entry(msg.clone()).or_insert(0) += 1; }
+    let mut reported: HashSet<String> = HashSet::new();
+    for (l, hist, msg) in &agg.panics {
+      if !reported.insert(msg.clone()) { continue; }
+      let art = json!({"engine": "C14", "input_text": l["layout"].to_string(), "layout_name": l["name"], "layout": l["layout"], "bound_keys_held": l["bound"], "history": hist.iter().map(|h| h.to_json()).collect::<Vec<_>>(), "history_text": hist.iter().map(|h| h.short()).collect::<Vec<_>>().join(" ")});
+      o.violations.push(Violation { property: "C14".into(), clause: "mapper-panics-on-accepted-layout".into(), signature: None, description: format!("the mapper panicked on a generated layout ({}): {} after {}", l["name"], msg, hist.iter().map(|h| h.short()).collect::<Vec<_>>().join(" ")), artefact: art, count: seen_msgs[msg] });
+    }
+  }
+  match binary_tier(ctx) {
+    None => { o.cov("real_binary_tier", "unavailable"); }
+    Some(t) => {
+      o.cov("real_binary_tier", "ran");
+      o.cov("real_binary_invocations", t.invocations);
+      o.cov("real_binary_accepted", t.accepted);
+      o.cov("real_binary_rejected_with_exit_1", t.rejected);
+      o.cov("real_binary_structured_input_stride", t.stride as u64);
+      o.cov("evaluations", n + t.invocations);
+      if let Some(e) = t.machinery { o.machinery_error = Some(format!("real-binary tier: {}", e)); }
+      else if t.accepted == 0 || t.rejected == 0 { o.machinery_error = Some("vacuity: the real binary accepted no input or rejected none".into()); }
+      for (msg, first, art, count) in t.crashes {
+        let mut a = art.clone(); a["engine"] = json!("C14");
+        o.violations.push(Violation { property: "C14".into(), clause: "binary-crashes-on-layout-file".into(), signature: None, description: format!("`totalmapper remap --layout-file F` ended with {} — first input: {}", msg, first), artefact: a, count });
+      }
+    }
+  }
   o
 }
 
